@@ -9,6 +9,7 @@ completion inside `spacelike_to` (`T J Tᵀ = J`, row 1 the normalised normal), 
 are handed back).
 -/
 import GT.Lemmas.Reflect
+import GT.Model.Isometry
 import Mathlib.Tactic.NormNum
 import Mathlib.Tactic.FinCases
 
@@ -204,6 +205,28 @@ theorem hyperplaneData_spec (T : Matrix (Fin (n + 2)) (Fin (n + 2)) K) (hT : T *
   refine ⟨by simp [hyperplaneData], ?_, ?_⟩
   · rw [hrow, mink_vecMul T hT, hs1]
   · rw [hrow, hnorm, mink_vecMul T hT, hs2]
+
+/-- the form matrix of this file is the one of the isometry model (`GT.Iso.minkJ`, C02) -/
+theorem Jm_eq_minkJ : (Jm : Matrix (Fin (n + 1)) (Fin (n + 1)) K) = GT.Iso.minkJ n := by
+  unfold Jm GT.Iso.minkJ GT.Iso.minkDiag
+  congr 1
+  funext i
+  refine Fin.cases ?_ (fun j => ?_) i
+  · simp
+  · simp [Fin.succ_ne_zero]
+
+/-- `hyperplaneData_spec` with the contract stated in the vocabulary of C02: for the repaired
+`spacelike_to` (frame `(t, v̂)` completed by `find_isometry`, model `GT.GS.spacelikeTo`),
+`GT.C02.spacelikeTo_isIso` provides `GT.Iso.IsIso T`; its row 1 is the normalised normal because
+Gram–Schmidt leaves `v̂ ⟂ t` alone.  No row permutation is involved any more. -/
+theorem hyperplaneData_spec_isIso (T : Matrix (Fin (n + 2)) (Fin (n + 2)) K)
+    (hT : GT.Iso.IsIso T) (hn : 0 < n) (normal : Fin (n + 2) → K) (h1 : T 1 = normal)
+    (j : Fin (n + 1)) :
+    hyperplaneData T normal 0 = normal ∧
+    mink (hyperplaneData T normal j.succ) (hyperplaneData T normal j.succ) = 0 ∧
+    mink (hyperplaneData T normal j.succ) normal = 0 := by
+  apply hyperplaneData_spec T _ hn normal h1 j
+  rw [Jm_eq_minkJ]; exact hT
 
 end field
 
